@@ -162,6 +162,7 @@ type c05TreeObs struct {
 	Err      string      `json:"err,omitempty"`
 	Rendered [][2]string `json:"rendered,omitempty"`
 	Repeat   string      `json:"repeat,omitempty"` // same | differs: ...
+	DepOrder string      `json:"dep_order,omitempty"` // same | differs: ... (the root's dependencies in every other order)
 }
 
 // ---- building the real chart ---------------------------------------------------------------
@@ -426,6 +427,42 @@ func c05ExecTree(c c05Case) (res c05Obs) {
 			}
 		}
 	}
+	// (4) the dependencies of the root in every other order (when their names are distinct, so that no
+	// template or Subcharts entry replaces another): the rendered map must not notice
+	if n := len(t.Root.Deps); n >= 2 && n <= 3 {
+		distinct := true
+		for i := range t.Root.Deps {
+			for j := 0; j < i; j++ {
+				if t.Root.Deps[i].Name == t.Root.Deps[j].Name {
+					distinct = false
+				}
+			}
+		}
+		if distinct {
+			perms := [][]int{{1, 0}}
+			if n == 3 {
+				perms = [][]int{{0, 2, 1}, {1, 0, 2}, {1, 2, 0}, {2, 0, 1}, {2, 1, 0}}
+			}
+			for _, pm := range perms {
+				root := *t.Root
+				root.Deps = make([]*c05TChart, n)
+				for i, j := range pm {
+					root.Deps[i] = t.Root.Deps[j]
+				}
+				t2 := *t
+				t2.Root = &root
+				out2, err2 := c05RenderTree(&t2, t.Shuffle+1)
+				cl, rs := classify(out2, err2)
+				if cl != obs.Render || !reflect.DeepEqual(rs, obs.Rendered) {
+					if !strings.HasPrefix(obs.DepOrder, "differs") {
+						obs.DepOrder = fmt.Sprintf("differs: dependencies in order %v give %s (%d files) instead of %s (%d files)", pm, cl, len(rs), obs.Render, len(obs.Rendered))
+					}
+				} else if obs.DepOrder == "" {
+					obs.DepOrder = "same"
+				}
+			}
+		}
+	}
 	os.Unsetenv("C05_CANARY")
 	if hadHome {
 		os.Setenv("HOME", home)
@@ -446,6 +483,9 @@ func c05TreeOracle(c c05Case, obs c05Obs) []hx.Violation {
 	}
 	if strings.HasPrefix(o.Repeat, "differs") {
 		vs = append(vs, hx.Violation{Sig: "C05:tree-differs", What: "the same chart tree and values rendered differently when the value maps were built in another insertion order / the environment and working directory changed: " + o.Repeat})
+	}
+	if strings.HasPrefix(o.DepOrder, "differs") {
+		vs = append(vs, hx.Violation{Sig: "C05:tree-dependency-order", What: "the same chart tree rendered differently when the (distinctly named) dependencies of the root were listed in another order: " + o.DepOrder})
 	}
 	for _, kv := range o.Rendered {
 		for _, tok := range []string{c05H.tokenA, c05H.tokenB, c05H.tokenEnv} {
